@@ -8,7 +8,8 @@ import scenarios as sc
 import oracles as o
 from common import Rng
 from framework import Ctx, decide, lean_stage
-from link import Cfg, Link, Pacing, rand_cfg, rand_plan, plan_text
+from link import Cfg, Link, Pacing, header_with_parent_dirs, rand_cfg, rand_plan, plan_text
+from session import Session
 from suites import Runner, generic_replay
 from trace import Trace
 
@@ -277,6 +278,9 @@ PLANS = {
     "C08": [("source-naks", 1200, lambda rng: source_any(rng, oc(o.o_C08), always_drain=True))],
     "C10": [("malformed", 1200, lambda rng: malformed(rng, c10_sig)),
             ("dest-arbitrary", 500, lambda rng: dest_any(rng, c10_sig, bad_dest=0.1)),
+            # the same on the library's own NativeFilestore (sandbox): its checksum and file access code, not
+            # the harness's in-memory filestore, is what can leak errors here
+            ("dest-arbitrary-native", 400, lambda rng: dest_any(rng, c10_sig, bad_dest=0.1, fs_kind="native")),
             ("source-any", 500, lambda rng: source_any(rng, c10_sig)),
             ("link-faulty", 300, lambda rng: link_faulty(rng, c10_sig))],
     "C12": [("link-cancel", 900, lambda rng: link_faulty(rng, lambda tr, c, r: o.o_C12(tr, c), kmax=1, cancel=True)),
@@ -299,6 +303,70 @@ PLANS = {
             ("source-quiet", 500, lambda rng: source_any(
                 rng, lambda tr, c, r: o.Fails(list(o.o_C19(tr)) + list(o.o_seglen(tr, c))), quiet=True, n_tx=1))],
 }
+
+
+def c14_fho_explore(ctx: Ctx, scale: int = 1):
+    """C14, implementation only: put requests carrying fault handler override options (they travel in the
+    Metadata PDU, for the receiver); at the sender the local table alone decides.  The model's Metadata PDU has no
+    such options, so these sessions are judged by the oracle o_C14 on the implementation's trace only."""
+    n = 0
+    for _ in range(150 * scale):
+        c = rand_cfg(ctx.rng)
+        c.faults_s = g.rand_fault_table(ctx.rng, ["POSITIVE_ACK_LIMIT_REACHED", "CHECK_LIMIT_REACHED",
+                                                  "CANCEL_REQUEST_RECEIVED"], p=0.7)
+        if ctx.rng.chance(0.5):
+            s = g.source_session(ctx.rng, cfg=c, fho=1.0, n_tx=ctx.rng.choice((1, 2)))
+        else:
+            # a silent peer: the limit faults are certainly declared (Positive ACK Limit in acknowledged mode,
+            # Check Limit with closure in unacknowledged mode), each with an override naming another code
+            rng = ctx.rng
+            c = rand_cfg(rng, put_mode="-", metadata_only=False)
+            c.faults_s = g.rand_fault_table(rng, ["POSITIVE_ACK_LIMIT_REACHED", "CHECK_LIMIT_REACHED"], p=0.7)
+            if c.mode == "U":
+                c.closure = 1
+            s = Session(header_with_parent_dirs(c))
+            s.do(c.put_line() + " fho=" + ",".join(f"{cc}:{rng.choice(g.FH)}" for cc in g.SRC_CONDS))
+            ackms, lim = (int(x) for x in c.ack.split("/"))
+            for _ in range(6 + 2 * (len(c.data) // max(1, c.seg_len))):
+                s.sm("S")
+                s.drain("S")
+            for _ in range(2 * lim + 3):
+                s.tick(max(ackms, c.chkms))
+                s.sm("S")
+                s.drain("S")
+        try:
+            ctx.evaluations += 1
+            n += 1
+            tr = Trace.of_session(s)
+            for sig, detail, idx in o.o_C14(tr):
+                k = len(s.ops) if idx is None else idx + 1
+                ctx.fail(sig, {"suite": "source-fault-handler-overrides-impl-only", "impl_only": True,
+                               "header": s.header, "ops": s.ops[:k], "detail": detail, "cfg": c.to_json(),
+                               "extra": {}, "impl_out_tail": s.out[max(0, k - 4):k]})
+        finally:
+            s.close()
+    ctx.count("impl-only:fault-handler-override-sessions", n)
+
+
+def c13_two_remotes_explore(ctx: Ctx, scale: int = 1):
+    """C13, implementation only: the check timer of a transaction is the one the user's provider gives for that
+    transaction's sender (scenarios.c13_two_remotes); the model has one interval per local entity, so these
+    sessions are judged by the scenario's own oracle on the implementation's trace only."""
+    n = 0
+    for _ in range(120 * scale):
+        s, fails, c, extra = sc.c13_two_remotes(ctx.rng)
+        try:
+            ctx.evaluations += 1
+            n += 1
+            ctx.count("scenario-skipped:two-remotes" if "skipped" in extra else "scenario-completed:two-remotes")
+            for sig, detail, idx in fails:
+                k = len(s.ops) if idx is None else idx + 1
+                ctx.fail(sig, {"suite": "dest-two-remotes-impl-only", "impl_only": True, "scenario": "c13_two_remotes",
+                               "header": s.header, "ops": s.ops[:k], "detail": detail, "cfg": c.to_json(),
+                               "extra": {k2: str(v) for k2, v in extra.items()},
+                               "impl_out_tail": s.out[max(0, k - 4):k]})
+        finally:
+            s.close()
 
 
 def run_plan(ctx: Ctx, pid: str, scale: int = 1, plans=None):
@@ -437,5 +505,21 @@ def replay(ctx: Ctx, pid: str, path: str) -> int:
                     return 1
                 break
         print("not reproduced on the current tree")
+        return 0
+    if pid in ("C04", "C13") and "ops" in obj and obj.get("impl_out_tail"):
+        # scripted scenarios (scenarios.py) judge the run while they drive it; their replay re-executes the
+        # recorded calls and compares the implementation's answers at the failing step with the recorded ones:
+        # the same answers = the same failure
+        from suites import replay_session
+        sess = replay_session(obj)
+        try:
+            tail = sess.out[max(0, len(obj["ops"]) - len(obj["impl_out_tail"])):len(obj["ops"])]
+        finally:
+            sess.close()
+        if tail == obj["impl_out_tail"]:
+            print(f"VIOLATION property={pid} replay={path}")
+            print("reproduced:", obj.get("signature"), json.dumps(obj.get("detail"), default=str)[:400])
+            return 1
+        print("not reproduced on the current tree (the implementation now answers:", str(tail[-1:])[:200], ")")
         return 0
     return generic_replay(ctx, path, replay_oracle(pid))
